@@ -39,6 +39,7 @@ class ReqBehaviour(D.ScriptedBehaviour):
             assert conn.pv.verified, conn.pv.error
             k = conn.pv.keys()
             conn.pending_session = A.SecureSession(k["a2c"], k["c2a"])
+            conn.verified = True
             conn.respond(req, 200, T.enc(out), H.TLV8)
             self.run.log("session", s=conn.id + 1)
 
@@ -135,7 +136,16 @@ class ReqRun:
         self.loop.create_task(go())
         self.settle()
 
-    def issue(self, method="GET"):
+    def pause(self, conn):
+        """The accessory hangs: it stops reading this socket (and never answers on it again)."""
+        try:
+            self.loop.remove_reader(conn.sock.fileno())
+        except Exception:  # noqa: BLE001
+            return
+        conn.paused = True
+        self.log("acc_pause", s=conn.id + 1)
+
+    def issue(self, method="GET", big=False):
         if self.next_r > self.nreq:
             return None
         r = self.next_r
@@ -143,10 +153,13 @@ class ReqRun:
         conn = self.pairing.connection
 
         async def w():
-            self.log("issue", r=r)
+            self.log("issue", r=r, big=bool(big))
             frm = None
             try:
-                if method == "GET":
+                if big:
+                    # far larger than the socket buffers: what the hung accessory does not read stays in the transport
+                    resp = await conn.put(f"/r/{r}", b"x" * (4 << 20))
+                elif method == "GET":
                     resp = await conn.get(f"/r/{r}")
                 elif method == "PUT":
                     resp = await conn.put(f"/r/{r}", b'{"x":1}')
@@ -240,9 +253,17 @@ class ReqRun:
 
     def peer_close(self, conn, how):
         self.half.pop(conn.id, None)
+        if getattr(conn, "paused", False):
+            # a hung accessory has unread data: its close is a reset (logged as such)
+            conn.close(reset=True)
+            return
         conn.close(reset=(how == "rst"))
 
     def finish(self):
+        self.settle()
+        for conn in self.net.conns:
+            if getattr(conn, "paused", False) and not conn.closed:
+                self.peer_close(conn, "rst")
         self.settle()
         # answer everything still answerable, then let every timer run out
         for conn in self.net.conns:
@@ -283,9 +304,20 @@ def random_run(rng: random.Random, rid, nsteps=30, limit=1):
 def stimulus(r: ReqRun, rng):
     """Returns True when the loop must be settled completely afterwards."""
     opts = []
-    live = [c for c in r.net.conns if c.open and (c.session is not None or r.limit > 1)]
-    if r.next_r <= r.nreq:
+    paused = [c for c in r.net.conns if c.open and getattr(c, "paused", False)]
+    live = [c for c in r.net.conns if c.open and (c.session is not None or r.limit > 1) and not getattr(c, "paused", False)]
+    # requests are issued on an established or fully lost connection, never in the middle of a (possibly stalled)
+    # secure-session setup (assumption of IpReq; the set-up phase is IpConn's)
+    mid_setup = r.limit == 1 and any(c.open and not c.verified for c in r.net.conns)
+    if r.next_r <= r.nreq and not mid_setup:
         opts += [("issue",)] * 6
+        if paused and r.pairing.connection.is_connected:
+            opts += [("issue_big",)] * 4
+    for c in live:
+        if not c.unanswered and c.id not in r.half and rng.random() < 0.15:
+            opts += [("pause", c)] * 2
+    for c in paused:
+        opts += [("close", c, "rst")]
     for c in live:
         if c.id in r.half:
             opts += [("rest", c)] * 4
@@ -314,6 +346,14 @@ def stimulus(r: ReqRun, rng):
     if o[0] == "issue":
         r.issue(rng.choice(["GET", "GET", "PUT", "POST"]))
         return False
+    if o[0] == "issue_big":
+        r.issue("PUT", big=True)
+        return True
+    if o[0] == "pause":
+        r.settle()
+        if o[1].open and not o[1].unanswered:
+            r.pause(o[1])
+        return True
     if o[0] == "resp":
         r.respond(o[1], "resp", rng.choice([200, 200, 207, 404, 470]))
         return False
@@ -346,3 +386,53 @@ def stimulus(r: ReqRun, rng):
         r.advance(rng.choice(ch))
         return True
     return True
+
+
+def hung_run(rng: random.Random, rid):
+    """Directed history for the stale-loss clause (C11): the accessory hangs on the first connection while a large
+    request is unflushed, the owner closes and re-opens the connection, traffic flows on the successor, and only
+    then does the abandoned socket die - its (late) loss must not disturb the connection in use."""
+    r = ReqRun()
+    r._rng = rng
+    try:
+        r.connect()
+        first = r.net.conns[-1]
+        if rng.random() < 0.5:
+            r.issue()
+            r.settle()
+            r.respond(first, "resp")
+            r.settle()
+        r.pause(first)
+        r.issue("PUT", big=True)
+        r.settle()
+        if rng.random() < 0.7:
+            r.user_close()
+            r.user_open()
+        r.advance(31)                      # the hung request times out; the successor finishes its set-up
+        r.settle()
+        cur = r.net.conns[-1]
+        for _ in range(rng.randrange(0, 3)):
+            if cur.open and cur.verified and r.next_r <= r.nreq:
+                r.issue()
+                r.settle()
+                if cur.unanswered:
+                    r.respond(cur, "resp")
+                r.settle()
+        if rng.random() < 0.5 and cur.open and cur.verified:
+            r.event(cur)
+            r.settle()
+        r.peer_close(first, "rst")         # the abandoned socket finally dies
+        r.settle()
+        cur2 = r.net.conns[-1]
+        for _ in range(rng.randrange(1, 3)):
+            if cur2.open and cur2.verified and r.next_r <= r.nreq:
+                r.issue()
+                r.settle()
+                if cur2.unanswered:
+                    r.respond(cur2, "resp")
+                r.settle()
+        r.finish()
+        return r
+    except BaseException:
+        r.close()
+        raise
